@@ -53,8 +53,9 @@ def run(chk):
             mu[-1] = mu[-1] + 1e4 * s
         relevance = r.choice([None, 1e-6, 0.5, 4.0, 1e3, 1e6])
         alpha = r.choice([0.0, 0.3, 0.5, 1.0])
-        if i % 6 == 1:
-            relevance = None        # fixed-ratio adaptation in at least every sixth case (with weight updating in half of them)
+        if i % 6 in (1, 4):
+            relevance = None        # fixed-ratio adaptation in at least every third case: odd i without, even i (i % 6 == 4) with weight updating;
+                                    # both are per-component ratio arrays (i % 3 == 1), whose blend does not sum to one before the renormalisation
         alpha_array = relevance is None and i % 3 == 1
         if alpha_array:
             # the fixed ratio given per component (a caller-owned array with unequal entries)
